@@ -315,11 +315,18 @@ PROPS = {
         note="The abstract domain carries names and roles only (types and nullability are C10/C11's). SQLBuilder is modelled as an accumulator. "
              "Operand lists of length 1-2 over a dataset with 2 identifiers, 3 measures, an attribute and a viral attribute; join-qualified names "
              "(alias#component) are not in the domain."),
+    "C29": dict(
+        claimed=True, design="§12.7 C29",
+        technique="inventory and receiver classification of every case-folding string method call in the package; shape rule on the VTL-name -> SQL-identifier function against DuckDB's case-insensitive identifier comparison (external fact encoded in the rule)",
+        text="Decides the two places where this repository can merge names that differ only in case: the Python side never folds the "
+             "case of a component, dataset or alias name (every .lower()/.upper()/... call is inventoried and classified; the two "
+             "that touch names only attribute error messages), and the function that writes a VTL name into SQL is checked for "
+             "injectivity under DuckDB's case-insensitive identifier comparison - it is not, which is the known finding: such "
+             "structures fail with a raw DuckDB catalog error. Nothing inside DuckDB is decided.",
+        note="DuckDB's identifier folding is an external fact (documented; confirmed by triage/c29_case_demo.py). Known finding: quote_name is the identity."),
 }
 
 NA_REASONS = {
-    "C29": "whether names differing only in case stay distinct is decided inside DuckDB's catalog/binder (identifiers are "
-           "case-insensitive even when quoted), not by a construct in this repository that a static rule can inspect",
     "C31": "SLL-vs-LL equivalence is a property of the ANTLR ATN simulator on the grammar's ambiguity structure; no "
            "grammar-level static criterion in reach decides it and the generated C++ cannot be analysed without its headers",
 }
